@@ -251,8 +251,8 @@ Section LexAdv.
   Lemma advO_parse_real_literal : forall o, advO o (parse_real_literal d F).
   Proof. intros. unfold parse_real_literal. advO_tac. Qed.
   Hint Resolve advO_parse_real_literal : adv_db.
-  Lemma advO_abs_real : forall o st0, adv o st0 -> advO o (abs_real d F st0).
-  Proof. intros. unfold abs_real. advO_tac. Qed.
+  Lemma advO_abs_real : forall o st0 pai ini, adv o st0 -> advO o (abs_real d F st0 pai ini).
+  Proof. intros. unfold abs_real, abs_real_gen. advO_tac. Qed.
   Lemma advO_abs_int_exp : forall o p0 ini, advO o (abs_int_exp d F p0 ini).
   Proof. intros. unfold abs_int_exp. advO_tac. Qed.
   Lemma advO_abs_based : forall o p0 p1 ini, advO o (abs_based d F p0 p1 ini).
@@ -598,8 +598,8 @@ Section LexNoFuel.
   Lemma nofuel_parse_real_literal : nofuel (parse_real_literal d F).
   Proof. unfold parse_real_literal. nofuel_tac. apply nf_F_nofuel, nf_real_loop. Qed.
   Hint Resolve nofuel_parse_real_literal : nofuel_db.
-  Lemma nofuel_abs_real : forall st0, nofuel (abs_real d F st0).
-  Proof. intro. unfold abs_real. nofuel_tac. Qed.
+  Lemma nofuel_abs_real : forall st0 pai ini, nofuel (abs_real d F st0 pai ini).
+  Proof. intros. unfold abs_real, abs_real_gen. nofuel_tac. Qed.
   Lemma nofuel_abs_int_exp : forall p0 ini, nofuel (abs_int_exp d F p0 ini).
   Proof. intros. unfold abs_int_exp. nofuel_tac. Qed.
   Lemma nofuel_abs_based : forall p0 p1 ini, nofuel (abs_based d F p0 p1 ini).
@@ -795,9 +795,10 @@ Section LexProgress.
   Qed.
 
   Lemma abs_real_sadv : forall b st0, get_char d st0 = GChar b -> is_digit b = true ->
-    forall st r st', abs_real d F st0 st = (r, st') -> (forall a, r <> Ab a) -> sadv st0 st'.
+    forall pai ini st r st', abs_real d F st0 pai ini st = (r, st') -> (forall a, r <> Ab a) -> sadv st0 st'.
   Proof.
-    intros b st0 G Hd st r st' H Hab. unfold abs_real in H. unfold bind at 1 in H. unfold set_state in H.
+    intros b st0 G Hd pai ini st r st' H Hab. unfold abs_real, abs_real_gen in H.
+    unfold bind at 1 in H. unfold set_state in H.
     eapply sadvAt_use; [|exact G|exact H|exact Hab].
     apply sadvAt_bind; [apply sadvAt_parse_real_literal; exact Hd|]. intro a. advs_tac.
   Qed.
@@ -1034,6 +1035,39 @@ Proof.
   split; [eapply ple_trans; eassumption|auto].
 Qed.
 
+(* the token's range is delimited by two reader states reached from `lo`, at least one character
+   apart, from the second of which `hi` is reached *)
+Definition tok_reach (d : list (list char)) (lo : rstate) (tok : token) (hi : rstate) : Prop :=
+  exists r1 r2, adv d lo r1 /\ sadv d r1 r2 /\ adv d r2 hi /\ t_s tok = r_pos r1 /\ t_e tok = r_pos r2.
+Fixpoint toks_reach (d : list (list char)) (lo : rstate) (ts : list token) : Prop :=
+  match ts with
+  | [] => True
+  | t :: r => exists hi, tok_reach d lo t hi /\ toks_reach d hi r
+  end.
+Lemma tok_reach_between : forall d lo tok hi, tok_reach d lo tok hi -> tok_between (r_pos lo) tok (r_pos hi).
+Proof.
+  intros d lo tok hi [r1 [r2 [A1 [S12 [A2 [E1 E2]]]]]]. unfold tok_between. rewrite E1, E2.
+  split; [eapply adv_ple; exact A1|]. split; [eapply sadv_plt; exact S12|eapply adv_ple; exact A2].
+Qed.
+Lemma tok_reach_weaken : forall d lo lo' tok hi hi',
+  adv d lo' lo -> adv d hi hi' -> tok_reach d lo tok hi -> tok_reach d lo' tok hi'.
+Proof.
+  intros d lo lo' tok hi hi' H1 H2 [r1 [r2 [A1 [S12 [A2 [E1 E2]]]]]]. exists r1, r2.
+  split; [eapply adv_trans; eassumption|]. split; [exact S12|]. split; [eapply adv_trans; eassumption|auto].
+Qed.
+Lemma toks_reach_weaken : forall d ts lo lo', adv d lo' lo -> toks_reach d lo ts -> toks_reach d lo' ts.
+Proof.
+  intros d [|t r] lo lo' H; cbn [toks_reach]; [auto|]. intros [hi [T R]]. exists hi.
+  split; [eapply tok_reach_weaken; [exact H|apply adv_refl|exact T]|exact R].
+Qed.
+Lemma toks_reach_sorted : forall d ts lo, toks_reach d lo ts -> ranges_sorted (r_pos lo) ts.
+Proof.
+  intros d ts. induction ts as [|t r IH]; intros lo H; cbn [toks_reach ranges_sorted] in *; [exact I|].
+  destruct H as [hi [T R]]. destruct (tok_reach_between _ _ _ _ T) as [B1 [B2 B3]].
+  split; [exact B1|]. split; [exact B2|]. eapply ranges_sorted_weaken; [exact B3|apply IH; exact R].
+Qed.
+
+
 Section Tokenizer.
   Variable d : list (list char).
   Variable kws : list (list N).
@@ -1058,12 +1092,11 @@ Section Tokenizer.
   Lemma advs_trailing_comment : advs d (trailing_comment d F).
   Proof. apply advO_advs. intro. apply advO_trailing_comment. Qed.
 
-  Definition rpos (t : tkst) : position := r_pos (k_rd t).
 
   Lemma pop_raw_props : forall t r t', pop_raw t = (r, t') ->
     adv (k_rd t) (k_rd t')
     /\ (r <> Ok None -> (forall a, r <> Ab a) -> sadv (k_rd t) (k_rd t'))
-    /\ (forall tok, r = Ok (Some tok) -> tok_between (rpos t) tok (rpos t'))
+    /\ (forall tok, r = Ok (Some tok) -> tok_reach d (k_rd t) tok (k_rd t'))
     /\ r <> Ab OutOfFuel.
   Proof.
     intros t r t' H. unfold LangLexer.pop_raw in H.
@@ -1081,9 +1114,8 @@ Section Tokenizer.
         * split; [eapply adv_trans; [exact A01|eapply adv_trans; [apply sadv_adv; exact S12|exact A23]]|].
           split; [intros _ _; eapply adv_sadv_trans; [exact A01|eapply sadv_adv_trans; eassumption]|].
           split; [|discriminate].
-          intros tok E. injection E as <-. unfold tok_between, rpos. cbn [t_s t_e k_rd].
-          split; [apply adv_ple with (d := d); exact A01|].
-          split; [apply sadv_plt with (d := d); exact S12|apply adv_ple with (d := d); exact A23].
+          intros tok E. injection E as <-. exists r1, r2. cbn [t_s t_e k_rd].
+          split; [exact A01|]. split; [exact S12|]. split; [exact A23|]. split; reflexivity.
         * split; [eapply adv_trans; [exact A01|eapply adv_trans; [apply sadv_adv; exact S12|exact A23]]|].
           split; [intros _ _; eapply adv_sadv_trans; [exact A01|eapply sadv_adv_trans; eassumption]|].
           split; [intros tok E; discriminate|discriminate].
@@ -1115,17 +1147,11 @@ Section Tokenizer.
       intro E. injection E as ->. eapply nofuel_leading_comments; [exact HF|exact LC].
   Qed.
 
-  Lemma tok_between_weaken : forall lo lo' tok hi hi',
-    ple lo' lo = true -> ple hi hi' = true -> tok_between lo tok hi -> tok_between lo' tok hi'.
-  Proof.
-    intros lo lo' tok hi hi' H1 H2 [A [B C]]. split; [eapply ple_trans; eassumption|].
-    split; [exact B|eapply ple_trans; eassumption].
-  Qed.
 
   Lemma ignored_loop_props : forall fuel t,
     match ignored_loop fuel t with
     | IgnBreak t2 => adv (k_rd t) (k_rd t2)
-    | IgnRet r t2 => adv (k_rd t) (k_rd t2) /\ (forall tok, r = Some tok -> tok_between (rpos t) tok (rpos t2))
+    | IgnRet r t2 => adv (k_rd t) (k_rd t2) /\ (forall tok, r = Some tok -> tok_reach d (k_rd t) tok (k_rd t2))
     | IgnAb a t2 => adv (k_rd t) (k_rd t2) /\ ((mu (k_rd t) < fuel)%nat -> a <> OutOfFuel)
     end.
   Proof.
@@ -1139,9 +1165,7 @@ Section Tokenizer.
         destruct (ignored_loop f t1) as [t2|r t2|a t2].
         * eapply adv_trans; eassumption.
         * destruct IH as [A2 T2]. split; [eapply adv_trans; eassumption|].
-          intros tok' E. eapply tok_between_weaken; [| |apply T2; exact E].
-          -- apply adv_ple with (d := d). exact A.
-          -- apply ple_refl.
+          intros tok' E. eapply tok_reach_weaken; [exact A|apply adv_refl|apply T2; exact E].
         * destruct IH as [A2 N2]. split; [eapply adv_trans; eassumption|].
           intro Hm. apply N2. pose proof (sadv_mu _ _ _ S1). unfold ReaderProofs.mu in *. lia.
     - split; [exact A|]. intros tok E. discriminate.
@@ -1149,9 +1173,7 @@ Section Tokenizer.
       destruct (ignored_loop f t1) as [t2|r t2|a t2].
       * eapply adv_trans; eassumption.
       * destruct IH as [A2 T2]. split; [eapply adv_trans; eassumption|].
-        intros tok' E. eapply tok_between_weaken; [| |apply T2; exact E].
-        -- apply adv_ple with (d := d). exact A.
-        -- apply ple_refl.
+        intros tok' E. eapply tok_reach_weaken; [exact A|apply adv_refl|apply T2; exact E].
       * destruct IH as [A2 N2]. split; [eapply adv_trans; eassumption|].
         intro Hm. apply N2. pose proof (sadv_mu _ _ _ S1). unfold ReaderProofs.mu in *. lia.
     - split; [exact A|]. intros _ E. subst a. apply NF. reflexivity.
@@ -1160,7 +1182,7 @@ Section Tokenizer.
   Lemma tk_pop_props : forall fuel t r t', tk_pop fuel t = (r, t') ->
     adv (k_rd t) (k_rd t')
     /\ (r <> Ok None -> (forall a, r <> Ab a) -> sadv (k_rd t) (k_rd t'))
-    /\ (forall tok, r = Ok (Some tok) -> tok_between (rpos t) tok (rpos t'))
+    /\ (forall tok, r = Ok (Some tok) -> tok_reach d (k_rd t) tok (k_rd t'))
     /\ ((mu (k_rd t) < fuel)%nat -> r <> Ab OutOfFuel).
   Proof.
     induction fuel as [|f IH]; intros t r t' H; cbn [LangLexer.tk_pop] in H.
@@ -1172,16 +1194,14 @@ Section Tokenizer.
         assert (Hrec : forall t2, adv (k_rd t1) (k_rd t2) -> tk_pop f t2 = (r, t') ->
                   adv (k_rd t) (k_rd t')
                   /\ (r <> Ok None -> (forall a, r <> Ab a) -> sadv (k_rd t) (k_rd t'))
-                  /\ (forall tok, r = Ok (Some tok) -> tok_between (rpos t) tok (rpos t'))
+                  /\ (forall tok, r = Ok (Some tok) -> tok_reach d (k_rd t) tok (k_rd t'))
                   /\ ((mu (k_rd t) < S f)%nat -> r <> Ab OutOfFuel)).
         { intros t2 A2 E. destruct (IH _ _ _ E) as [A3 [S3 [T3 N3]]].
           assert (S2 : sadv (k_rd t) (k_rd t2)) by (eapply sadv_adv_trans; eassumption).
           split; [eapply adv_trans; [apply sadv_adv; exact S2|exact A3]|].
           split; [intros _ _; eapply sadv_adv_trans; eassumption|].
           split.
-          - intros tok' E'. eapply tok_between_weaken; [| |apply T3; exact E'].
-            + apply adv_ple with (d := d). apply sadv_adv. exact S2.
-            + apply ple_refl.
+          - intros tok' E'. eapply tok_reach_weaken; [apply sadv_adv; exact S2|apply adv_refl|apply T3; exact E'].
           - intro Hm. apply N3. pose proof (sadv_mu _ _ _ S2). unfold ReaderProofs.mu in *. lia. }
         destruct (leading_is_start tok).
         * destruct (negb (trailing_is_end tok)).
@@ -1192,9 +1212,7 @@ Section Tokenizer.
                 split; [eapply adv_trans; eassumption|].
                 split; [intros _ _; eapply sadv_adv_trans; eassumption|].
                 split; [|discriminate].
-                intros tok' E. injection E as E. eapply tok_between_weaken; [| |apply T2; exact E].
-                ** apply adv_ple with (d := d). exact A.
-                ** apply ple_refl.
+                intros tok' E. injection E as E. eapply tok_reach_weaken; [exact A|apply adv_refl|apply T2; exact E].
              ++ injection H as <- <-. destruct IL as [A2 N2].
                 split; [eapply adv_trans; eassumption|].
                 split; [intros _ Hab; exfalso; eapply Hab; reflexivity|].
@@ -1293,29 +1311,30 @@ Section Stream.
     - intro E. apply N. congruence.
   Qed.
 
-  Lemma lex_sorted : forall fuel t toks diags,
-    lex d kws F true fuel t = Done toks diags -> ranges_sorted (rpos t) toks.
+  Lemma lex_reach : forall fuel t toks diags,
+    lex d kws F true fuel t = Done toks diags -> toks_reach d (k_rd t) toks.
   Proof.
     induction fuel as [|f IH]; intros t toks diags H; [discriminate|]. cbn [lex] in H.
     destruct (tk_pop d kws F true F t) as [r t1] eqn:TP.
     destruct (tk_pop_props d kws F HF _ _ _ _ TP) as [A [_ [T _]]].
     destruct r as [[tok|]|e|a].
-    - destruct (T tok eq_refl) as [B1 [B2 B3]].
+    - pose proof (T tok eq_refl) as TR.
       destruct (is_grave (t_kind tok)).
       + destruct (handle_tool_directive d kws F true tok t1) as [[ds|e|a] t2] eqn:HT; try discriminate.
         destruct (handle_tool_directive_props _ _ _ _ HT) as [A2 _].
         destruct (lex d kws F true f t2) as [ts ds'|a] eqn:L; cbn [add_diags] in H; [|discriminate].
-        injection H as <- _. eapply ranges_sorted_weaken; [|eapply IH; exact L].
-        apply adv_ple with (d := d). eapply adv_trans; eassumption.
+        injection H as <- _. eapply toks_reach_weaken; [|eapply IH; exact L].
+        eapply adv_trans; eassumption.
       + destruct (lex d kws F true f t1) as [ts ds'|a] eqn:L; cbn [add_tok] in H; [|discriminate].
-        injection H as <- _. cbn [ranges_sorted]. split; [exact B1|]. split; [exact B2|].
-        eapply ranges_sorted_weaken; [exact B3|eapply IH; exact L].
+        injection H as <- _. cbn [toks_reach]. exists (k_rd t1). split; [exact TR|eapply IH; exact L].
     - injection H as <- _. exact I.
     - destruct (lex d kws F true f t1) as [ts ds'|a] eqn:L; cbn [add_diags] in H; [|discriminate].
-      injection H as <- _. eapply ranges_sorted_weaken; [|eapply IH; exact L].
-      apply adv_ple with (d := d). exact A.
+      injection H as <- _. eapply toks_reach_weaken; [exact A|eapply IH; exact L].
     - discriminate.
   Qed.
+  Lemma lex_sorted : forall fuel t toks diags,
+    lex d kws F true fuel t = Done toks diags -> ranges_sorted (r_pos (k_rd t)) toks.
+  Proof. intros fuel t toks diags H. apply toks_reach_sorted with (d := d). eapply lex_reach; exact H. Qed.
 End Stream.
 
 (* ---------------------------------------------------------------------------------------- *)
@@ -1360,6 +1379,13 @@ Proof.
   intros kws fuel s toks diags Hl H. unfold lex_gen in H.
   assert (HF : (length (concat (split_lines s)) < fuel)%nat) by (pose proof (split_lines_length s); lia).
   exact (lex_sorted _ _ _ HF _ _ _ _ H).
+Qed.
+Theorem tokens_reach_gen : forall kws fuel s toks diags,
+  (length s < fuel)%nat -> lex_gen kws true fuel s = Done toks diags -> toks_reach (split_lines s) rstart toks.
+Proof.
+  intros kws fuel s toks diags Hl H. unfold lex_gen in H.
+  assert (HF : (length (concat (split_lines s)) < fuel)%nat) by (pose proof (split_lines_length s); lia).
+  exact (lex_reach _ _ _ HF _ _ _ _ H).
 Qed.
 Theorem token_ranges_ordered : forall s toks diags,
   lex_all s = Done toks diags -> ranges_sorted (0, 0) toks.
